@@ -1,5 +1,6 @@
 """Which rules decide which property."""
 
+from lcmsa import rules_per as per
 from lcmsa import rules_qa as qa
 
 TRUSTED_COMMON = [
@@ -22,3 +23,8 @@ def prop(pid, rules, explanation, **kw):
 
 prop("C05", [qa.qa_sites, qa.qa_order, qa.qa_value_axes, qa.qa_siblings],
      "R2 query algebra: canonical order partition/precedences, axis_names, sibling selections")
+
+prop("C01", [per.per_rules, qa.qa_partition], "R3 period offsets; R2 partition",
+     filter={"R2.QA1": lambda o: o.key.startswith("QA1:cover")})
+
+prop("C06", [per.per_rules], "R3 period offsets (solver and simulator agree)")
